@@ -142,8 +142,10 @@ func (p *Parser) Parse(buf []byte, args ...any) (any, error) {
 	p.lastStrKey = emptyKey
 	var err error
 	// Skip BOM if present.
-	if 3 < len(buf) && buf[0] == 0xEF {
-		if buf[1] == 0xBB && buf[2] == 0xBF {
+	// A token can start with any non ASCII character, only 0xEF 0xBB is
+	// taken as the start of a BOM.
+	if 3 < len(buf) && buf[0] == 0xEF && buf[1] == 0xBB {
+		if buf[2] == 0xBF {
 			err = p.parseBuffer(buf[3:], true)
 		} else {
 			return nil, fmt.Errorf("expected BOM at 1:3")
@@ -231,7 +233,10 @@ func (p *Parser) ParseReader(r io.Reader, args ...any) (data any, err error) {
 	}
 	var skip int
 	// Skip BOM if present.
-	if 3 < len(buf) && buf[0] == 0xEF && buf[1] == 0xBB && buf[2] == 0xBF {
+	if 3 < len(buf) && buf[0] == 0xEF && buf[1] == 0xBB {
+		if buf[2] != 0xBF {
+			return nil, fmt.Errorf("expected BOM at 1:3")
+		}
 		skip = 3
 	}
 	for {
